@@ -25,6 +25,13 @@ used to produce expectations):
   equals the independent flattening (leaf = first glyph that is not a pure composite) and no
   reference is nested; maxp.maxComponentElements / maxComponentDepth equal the values recomputed
   from the reloaded glyf; every base is in the glyph order.
+
+Source-lib dimension: the shape palettes are also compiled (default inplace=False) from sources whose
+font.lib and/or default-layer lib carry the cu2qu bookkeeping key
+``com.github.googlei18n.cu2qu.curve_type`` = "quadratic" | "cubic" (left behind by the cu2qu CLI or an
+earlier in-place build).  A lib key is not an option: the oracle is exactly the same (outlines
+converted and reversed as the options say).  inplace=True builds, where honouring the key is the
+documented behaviour, are not explored.
 """
 
 from __future__ import annotations
@@ -41,6 +48,7 @@ from mc.explore import Property, Result, digest, violation
 from props.c01_cff_outlines import SMALLBOX, deviation_glyphs
 
 MAX_F2DOT14 = 0x7FFF / (1 << 14)
+CURVE_TYPE_LIB_KEY = "com.github.googlei18n.cu2qu.curve_type"  # spelled out: independent of fontTools
 ROUND_SLACK = 0.7072  # every control point moves by <= sqrt(.5) when rounded; splines are convex combinations
 EPS = 1e-6
 
@@ -553,7 +561,9 @@ class C02(Property):
     rule = ("state = one glyph of a packed font under one option setting: (root shape, component chain "
             "over the transform palette, variant) | palette shape / cubic | coordinate deviation | special "
             "component graph, x (convertCubics, reverseDirection, flattenComponents, allQuadratic, "
-            "cubicConversionError, dropImpliedOnCurves, unitsPerEm); non-trivial = glyph has components, a "
+            "cubicConversionError, dropImpliedOnCurves, unitsPerEm) x (for the shape palettes: cu2qu curve_type "
+            "key absent | 'quadratic' | 'cubic' in font.lib / default layer lib / both, rememberCurveType "
+            "default | False; always inplace=False); non-trivial = glyph has components, a "
             "curve segment or a half-integer coordinate")
     assumptions = [
         "coordinates are multiples of 1/4 within +-16384 and transform entries dyadic, so reference and "
@@ -576,14 +586,22 @@ class C02(Property):
                     "trie_errupm": [[e, u] for e in ERRS for u in UPMS],
                     "deep": {"d": 3, "shapes": ["tri", "cubic"], "variants": ["pure", "shared", "overmixed", "three"],
                              "errupm": [[None, 1000]]},
-                    "dev_singles": ["tri", "cubic", "quad"], "dev_pairs": [], "defcon": "default-only"}
+                    "dev_singles": ["tri", "cubic", "quad"], "dev_pairs": [], "defcon": "default-only",
+                    "libkey": {"flat": [False], "drop": [False],
+                               "cases": [[w, v, None, "ufoLib2"] for w in ("font", "layer", "both")
+                                         for v in ("quadratic", "cubic")]
+                               + [["font", "quadratic", False, "ufoLib2"], ["both", "quadratic", None, "defcon"]]}}
         return {"depth": 0, "tier_name": "thorough", "trie_depth": 3, "palette": B.QUICK_TRANSFORMS,
                 "trie_errupm": [[e, u] for e in ERRS for u in UPMS],
                 "deep": {"d": 3, "shapes": ["tri", "cubic", "quad"], "variants": VARIANTS,
                          "errupm": [[None, 1000]], "palette": B.ALL_TRANSFORMS},
                 "deep4": {"d": 4, "shapes": ["tri"], "variants": ["pure", "shared", "mixed", "three"]},
                 "dev_singles": ["tri", "cubic", "quad", "mixed", "two", "offstart"], "dev_pairs": ["tri"],
-                "defcon": "all-shapes"}
+                "defcon": "all-shapes",
+                "libkey": {"flat": [False, True], "drop": [False, True],
+                           "cases": [[w, v, r, m] for w in ("font", "layer", "both")
+                                     for v in ("quadratic", "cubic") for r in (None, False, True)
+                                     for m in ("ufoLib2", "defcon")]}}
 
     def initial(self, b):
         out = []
@@ -636,6 +654,13 @@ class C02(Property):
                 add(c, part="cycle", module="ufoLib2")
             if c["err"] is None and c["upm"] == 1000:
                 add(c, part="qline", module="ufoLib2")
+            # source-lib dimension: cu2qu curve_type key already present in the (non-inplace) source
+            lk = b.get("libkey")
+            if lk and c["err"] is None and c["upm"] == 1000 and c["flat"] in lk["flat"] and c["drop"] in lk["drop"]:
+                for where, value, rct, module in lk["cases"]:
+                    lib = {"where": where, "value": value, "rct": rct}
+                    add(c, part="shapes", cubic=False, module=module, lib=lib)
+                    add(c, part="shapes", cubic=True, module=module, lib=lib, needs_cubic=True)
 
         # heaviest fonts first (pure scheduling; the set of states is unchanged)
         def cost(h):
@@ -649,7 +674,10 @@ class C02(Property):
 
     REQUIRED = ("quad_run_1", "quad_run_2", "quad_run_3", "quad_run_4plus", "cubic_kept", "dropped_oncurves",
                 "flatten_changed", "format_limit_weak", "mixed_3plus_components", "flipped_members",
-                "half_coord_glyphs", "rejected_cubic_in_glyf0", "rejected_cycle", "max_depth_seen_3")
+                "half_coord_glyphs", "rejected_cubic_in_glyf0", "rejected_cycle", "max_depth_seen_3",
+                "libkey_fonts", "libkey_quadratic_in_font_lib", "libkey_quadratic_in_layer_lib",
+                "libkey_quadratic_cubics_converted", "libkey_quadratic_contours_reversed",
+                "libkey_quadratic_contours_reversed_without_conversion")
 
     def finish(self, b, summary):
         missing = [k for k in self.REQUIRED if not summary["counters"].get(k)]
@@ -673,6 +701,16 @@ class C02(Property):
         opts = {"convertCubics": c["cc"], "reverseDirection": c["rev"], "flattenComponents": c["flat"],
                 "allQuadratic": c["aq"], "cubicConversionError": c["err"], "dropImpliedOnCurves": c["drop"]}
         feat = {k: c[k] for k in ("cc", "rev", "flat", "aq", "drop")}
+        lib = c.get("lib")
+        if lib:
+            # bookkeeping key of an earlier conversion in the source; the build below is NOT in place
+            if lib["where"] in ("font", "both"):
+                font.lib[CURVE_TYPE_LIB_KEY] = lib["value"]
+            if lib["where"] in ("layer", "both"):
+                font.layers.defaultLayer.lib[CURVE_TYPE_LIB_KEY] = lib["value"]
+            if lib["rct"] is not None:
+                opts["rememberCurveType"] = lib["rct"]
+            feat = dict(feat, curve_type_lib="%s:%s" % (lib["where"], lib["value"]), rct=lib["rct"])
         try:
             tt = compile_ttf(font, **opts)
         except InvalidFontData as e:
@@ -682,13 +720,35 @@ class C02(Property):
         except ValueError as e:
             if not c["cc"] and c["aq"] and has_cubic(glyphs) and "cubic Bezier curves" in str(e):
                 return Result([], {"rejected_cubic_in_glyf0": 1}, "rejected-cubic", substates=1, nontrivial=0)
+            if lib and "cubic Bezier curves" in str(e):
+                # convertCubics or allQuadratic=False was requested, yet a cubic reached the glyf-0 writer
+                return Result([violation("compile-crash", dict(feat, part="shapes", type="ValueError"),
+                                         message=str(e)[:300], module=c["module"])], {}, "crash",
+                              substates=len(glyphs))
             raise
         except AssertionError as e:
             if c["part"] == "qline":
                 return Result([violation("compile-crash", dict(feat, part="qline", type="AssertionError"),
                                          message=str(e)[:300], spec=glyphs["ql"])], {}, "crash", substates=1)
             raise
-        return self.check_font(c, glyphs, tt, feat)
+        res = self.check_font(c, glyphs, tt, feat)
+        if lib:
+            k = res.counters
+            k["libkey_fonts"] = 1
+            if lib["value"] == "quadratic":
+                if lib["where"] in ("font", "both"):
+                    k["libkey_quadratic_in_font_lib"] = 1
+                if lib["where"] in ("layer", "both"):
+                    k["libkey_quadratic_in_layer_lib"] = 1
+                if c["cc"]:
+                    k["libkey_quadratic_cubics_converted"] = sum(
+                        k["quad_run_%s" % n] for n in ("1", "2", "3", "4plus"))
+                if c["cc"] and c["rev"]:  # direction is reversed by the cubic-to-quadratic filter itself
+                    key = "libkey_quadratic_contours_reversed"
+                    if not c["cubic"]:
+                        key += "_without_conversion"  # font of line / quadratic glyphs only
+                    k[key] = k["contours_matched"]
+        return res
 
     def check_font(self, c, glyphs, tt, feat):
         viols = []
